@@ -128,7 +128,8 @@ Section Spec.
 
   Definition doc_seq_exit (h : hint) (outer sub : dcur) (drained : bool) : outcome dcur :=
     match h, drained, sub with
-    | HSeq, false, CSeq (_ :: _) => Err EC_UNFIT
+    | HSeq, false, CSeq [] => Ok outer
+    | HSeq, false, _ => Err EC_UNFIT      (* a tuple shorter than the array *)
     | _, _, _ => Ok outer
     end.
 
